@@ -468,34 +468,62 @@ func checkQuoteValue(c *Ctx, pe *runePredEval, fd *ast.FuncDecl, ident runeSet) 
 	var trigger runeSet
 	found := false
 	undecided := ""
-	ast.Inspect(fd.Body, func(n ast.Node) bool {
-		rs, ok := n.(*ast.RangeStmt)
-		if !ok || rs.Value == nil {
-			return true
-		}
-		vid, ok := rs.Value.(*ast.Ident)
-		if !ok {
-			return true
-		}
-		arg := info.Defs[vid]
-		for _, st := range rs.Body.List {
-			if ifs, ok := st.(*ast.IfStmt); ok {
-				s, ok := pe.eval(ifs.Cond, arg)
-				if !ok {
-					undecided = "loop condition not decidable"
-					continue
-				}
-				trigger = trigger.union(s)
-				found = true
+	scanLoops := func(body *ast.BlockStmt) {
+		ast.Inspect(body, func(n ast.Node) bool {
+			rs, ok := n.(*ast.RangeStmt)
+			if !ok || rs.Value == nil {
+				return true
 			}
+			vid, ok := rs.Value.(*ast.Ident)
+			if !ok {
+				return true
+			}
+			arg := info.Defs[vid]
+			for _, st := range rs.Body.List {
+				if ifs, ok := st.(*ast.IfStmt); ok {
+					s, ok := pe.eval(ifs.Cond, arg)
+					if !ok {
+						undecided = "loop condition not decidable"
+						continue
+					}
+					trigger = trigger.union(s)
+					found = true
+				}
+			}
+			return true
+		})
+	}
+	scanLoops(fd.Body)
+	if !found && undecided == "" {
+		// the per-rune scan may sit in a package helper that is handed the value (isSafe(value))
+		var param types.Object
+		if fd.Type.Params.NumFields() > 0 && len(fd.Type.Params.List[0].Names) > 0 {
+			param = info.Defs[fd.Type.Params.List[0].Names[0]]
 		}
-		return true
-	})
+		ast.Inspect(fd.Body, func(n ast.Node) bool {
+			call, ok := n.(*ast.CallExpr)
+			if !ok || found {
+				return true
+			}
+			fn := calleeFunc(info, call)
+			if fn == nil || fn.Pkg() == nil || fn.Pkg().Path() != pe.pk.PkgPath {
+				return true
+			}
+			for _, a := range call.Args {
+				if id, ok := ast.Unparen(a).(*ast.Ident); ok && param != nil && info.Uses[id] == param {
+					if hd := funcDecl(pe.pk, fn); hd != nil && hd.Body != nil {
+						scanLoops(hd.Body)
+					}
+				}
+			}
+			return true
+		})
+	}
 	switch {
 	case undecided != "":
 		r.Undecided("H3", "quoteValue/bare-set", c.P.pos(fd.Pos()), undecided)
 	case !found:
-		r.Finding("H3", "quoteValue/bare-set", c.P.pos(fd.Pos()), "no per-rune test decides whether a value needs quoting")
+		r.Undecided("H3", "quoteValue/bare-set", c.P.pos(fd.Pos()), "no per-rune test deciding whether a value needs quoting was found in quoteValue or in a helper it hands the value to: shape not recognised")
 	default:
 		bare := trigger.complement()
 		if extra := bare.minus(ident); len(extra) == 0 {
